@@ -181,3 +181,12 @@ Proof.
   intros [np nt ow fs] src dst n len. unfold copy_actions. cbn [ce_dst_exists ce_same_file andb].
   destruct ow, np, nt, fs; vm_compute; reflexivity.
 Qed.
+
+(* ---- the block job of parblock: one unfolding of CopyLoop.block_job in terms of the extracted expressions ---- *)
+Theorem x_block_job_ok : forall f flen off bytes done k rest,
+  block_job (S f) flen off bytes done (XOk k :: rest) =
+  let req := mkReq (x_block_job_offset off done) (x_block_job_offset off done) (x_block_job_request bytes done) in
+  if k =? 0 then mkOut (if x_block_job_zero_is_end flen off done then StOk else StErr EPREMATURE) [(req, XOk 0)] rest
+  else if x_block_job_complete (done + k) bytes then mkOut StOk [(req, XOk k)] rest
+  else out_cons (req, XOk k) (block_job f flen off bytes (done + k) rest).
+Proof. reflexivity. Qed.
